@@ -86,7 +86,8 @@ def r2_containment(c, rid="C14.R2", include_examples=False):
             am, ac, af = acls[v]
             texts = [t for _, t, _ in returned_texts(af) if t is not None]
             if not texts:
-                c.undecided(rid, repo.loc(am, af), f"{cls.name}.acl_{v}", "ACL is not a string literal")
+                c.undecided(rid, repo.loc(am, af), f"{cls.name}.acl_{v}", "ACL is not a string literal: containment of the emitted rows cannot be decided against a computed ACL")
+                unpaired += 1
                 continue
             pairs += 1
             acl_rows = []
@@ -358,6 +359,48 @@ def r3(c):
                        "(the error comes after, not before, the emitted lines)", key_text=msg, path=[t for t in trace if t][-14:])
 
 
+def _call_sources(repo, m, cls, fn, expr, depth):
+    """names of the calls a value derives from, looking through comprehension variables and through self.<helper>() return values"""
+    out = set()
+    if depth > 3:
+        return out
+    pv = Provenance(fn)
+    todo = [expr]
+    seen = set()
+    while todo:
+        e = todo.pop()
+        if id(e) in seen:
+            continue
+        seen.add(id(e))
+        for x in ast.walk(e):
+            if isinstance(x, ast.Name) and isinstance(x.ctx, ast.Load):
+                # a comprehension variable: its iterable
+                p_ = getattr(x, "_parent", None)
+                comp = None
+                while p_ is not None and p_ is not fn:
+                    if isinstance(p_, (ast.GeneratorExp, ast.ListComp, ast.SetComp, ast.DictComp)):
+                        for g in p_.generators:
+                            if any(isinstance(t, ast.Name) and t.id == x.id for t in ast.walk(g.target)):
+                                comp = g.iter
+                    p_ = getattr(p_, "_parent", None)
+                if comp is not None:
+                    todo.append(comp)
+                else:
+                    for d in pv.rd.defs(x):
+                        if d.value is not None and d.kind != "param":
+                            todo.append(d.value)
+            if isinstance(x, ast.Call):
+                nm = call_name(x).split(".")[-1]
+                out.add(nm)
+                if isinstance(x.func, ast.Attribute) and isinstance(x.func.value, ast.Name) and x.func.value.id == "self":
+                    h = repo.class_attr(m, cls, x.func.attr)
+                    if h and isinstance(h[2], ast.FunctionDef) and h[2] is not fn:
+                        for r in walk_no_nested(h[2]):
+                            if isinstance(r, ast.Return) and r.value is not None:
+                                out |= _call_sources(repo, h[0], cls, h[2], r.value, depth + 1)
+    return out
+
+
 def r4(c):
     repo = c.repo
     c.rule("C14.R4", "names come from the shared naming functions: wherever a policy statement refers to a prefix list (Huawei, Arista, Cumulus) the name token derives from "
@@ -400,6 +443,27 @@ def r4(c):
                             "with or_longer overrides the policy would refer to a list the list generator defines under another name", key_text="plist-name")
                     break
     c.floor("C14.R4", "prefix-list name sites", sites, 6)
+    # an ACL that narrows its rows by list names must draw them from the same naming function as the rows it has to cover
+    pm = repo.module("annet.rpl_generators.prefix_lists")
+    for q, fn in pm.defs.items():
+        if not (isinstance(fn, ast.FunctionDef) and "." in q and q.split(".")[-1].startswith("acl_")):
+            continue
+        holes = [v for j in ast.walk(fn) if isinstance(j, ast.JoinedStr) for v in j.values if isinstance(v, ast.FormattedValue)]
+        holes += [a for x in ast.walk(fn) if isinstance(x, ast.BinOp) and isinstance(x.op, ast.Mod) and isinstance(x.left, ast.Constant) and isinstance(x.left.value, str)
+                  for a in (x.right.elts if isinstance(x.right, ast.Tuple) else [x.right])]
+        holes += [a for x in ast.walk(fn) if isinstance(x, ast.Call) and isinstance(x.func, ast.Attribute) and x.func.attr == "format" and isinstance(x.func.value, ast.Constant) for a in x.args]
+        if not holes:
+            c.holds("C14.R4", repo.loc(pm, fn), f"{q}/acl-names", "constant ACL text (covers every list name)", trivial=True)
+            continue
+        cls = repo.cls("annet.rpl_generators.prefix_lists", q.split(".")[0])
+        for h in holes:
+            e = h.value if isinstance(h, ast.FormattedValue) else h
+            srcs = _call_sources(repo, pm, cls, fn, e, 0)
+            c.check("C14.R4", "get_prefix" in srcs, repo.loc(pm, fn), f"{q}/acl-names", f"the ACL is narrowed to the names `{norm(e)[:40]}` computed from {sorted(srcs) or 'no naming call'}; the rows it must "
+                    "cover carry names from PrefixListNameGenerator.get_prefix(...).name (`<name>_<ge>_<le>` for or_longer overrides): such a list is generated but not covered by "
+                    "the generator's own ACL (AclError -> GeneratorError)", key_text="acl-names")
+
+
     # united community lists
     cm = repo.module("annet.rpl_generators.community")
     fn = repo.func("annet.rpl_generators.community", "get_used_united_community_lists")
